@@ -200,6 +200,32 @@ func TestC08History(t *testing.T) {
 				after, tss, full := w.c08Store()
 				out.Emit(Case{Coq: fmt.Sprintf("AppendCase %s %s %s []", cstr("EndBlock"), clist(before), clist(after)), Kind: "append/EndBlock",
 					Nontrivial: len(after) > len(before), Key: fmt.Sprint(seed(), i, b, "end")})
+				// attestation snapshots written in this block (bridge end blocker) and, every third block, snapshots
+				// requested for up to three stored aggregates (CreateSnapshot as MsgRequestAttestations calls it), on a cache context
+				{
+					cctx, _ := w.ctx.CacheContext()
+					if b%3 == 1 {
+						for q, ts := range tss {
+							for k := 0; k < 3 && len(ts) > 0; k++ {
+								func() {
+									defer func() { _ = recover() }()
+									_ = w.s.Bridgekeeper.CreateSnapshot(cctx, full[q], time.UnixMilli(int64(ts[r.Intn(len(ts))])), true)
+								}()
+							}
+						}
+					}
+					var snaps []string
+					_ = w.s.Bridgekeeper.AttestSnapshotDataMap.Walk(cctx, nil, func(k []byte, d bridgetypes.AttestationSnapshotData) (bool, error) {
+						if d.AttestationTimestamp == uint64(w.now.UnixMilli()) {
+							snaps = append(snaps, fmt.Sprintf("(%d, %d, %d, %d)", qidNum(d.QueryId), d.Timestamp, d.PrevReportTimestamp, d.NextReportTimestamp))
+						}
+						return false, nil
+					})
+					if len(snaps) > 0 {
+						out.Emit(Case{Coq: fmt.Sprintf("SnapshotCase %s %s", clist(after), clist(snaps)), Kind: fmt.Sprintf("snapshots/n=%d", bucket(len(snaps))),
+							Nontrivial: len(after) >= 2, Key: fmt.Sprint(seed(), i, b, "snap")})
+					}
+				}
 				// probes on the state after the block
 				if b%3 == 2 || b == 29 {
 					var probes []string
